@@ -3,6 +3,7 @@
     (count only, or count plus any extra value columns), so every statement holds for every value column. *)
 From Cooler Require Import Model.Create Proofs.PixelsProofs Proofs.CreateProofs.
 From Coq Require Import Permutation Sorting.Sorted.
+From Cooler Require Model.Query Model.Index Proofs.QueryProofs Proofs.IndexProofs Proofs.EndToEnd.
 
 (** write_pixels_concat: the writing loop alone (no validator, empty datasets).  For EVERY chunk list - any sizes, empty
     chunks, no chunk - if no write fails, the stored columns are exactly the concatenation of the chunks, the returned
@@ -180,3 +181,23 @@ Example ex_C01_words :
   map json_word ["123"; "-0"; "0123"; "1e5"; "true"; "null"; "hg19"; "NaN"; "e5"]%string =
   [Some (JInt 123); Some (JInt 0); None; Some JFloatLit; Some (JBool true); Some JNull; None; None; None].
 Proof. reflexivity. Qed.
+
+(** integration with C02 and C03: creating a collection from a sorted, in-range, upper-triangular stream (index written by
+    the modelled index_pixels) and reading it back THROUGH THE MODEL OF THE QUERY ENGINE (get_spans with any chunk size,
+    the fill-lower plan, the reader) gives, for every window, the stored records resp. the sub-block of the symmetric
+    completion of the input, each coordinate once.  (Proofs/EndToEnd.v; uses C02_create_valid and the C03 theorems.) *)
+Theorem C01_create_then_query_through_engine : forall n_chroms chroms (px : list Pixels.pixel) cs i0 i1 j0 j1,
+  0 <= n_chroms -> IndexProofs.NonDecr chroms -> (forall x, In x chroms -> 0 <= x < n_chroms) ->
+  SSorted px ->
+  (forall p, In p px -> 0 <= Pixels.row p < zlen chroms /\ 0 <= Pixels.col p < zlen chroms) ->
+  (forall p, In p px -> Pixels.row p <= Pixels.col p) ->
+  1 <= cs -> 0 <= i0 -> i0 <= i1 -> i1 <= zlen chroms -> 0 <= j0 -> j0 <= j1 -> j1 <= zlen chroms ->
+  exists c, Index.create_model n_chroms chroms px true = Some c /\ Index.pixels_of c = px /\
+    Query.direct_query (Query.epx_of px) (Index.bin1_offset c) (Query.get_spans (Index.bin1_offset c) cs) (i0, i1, j0, j1)
+      = filter (fun r => QueryProofs.in_window (i0, i1, j0, j1) (snd r)) (Query.epx_of px) /\
+    exists out, Query.fill_lower_query (Query.epx_of px) (Index.bin1_offset c) (Query.get_spans (Index.bin1_offset c) cs) (i0, i1, j0, j1) = Some out /\
+      NoDup (Pixels.keys (map snd out)) /\
+      Query.dense_of out (i0, i1, j0, j1) =
+      map (fun i => map (fun j => Pixels.symm px i j) (zrange j0 (Z.to_nat (j1 - j0)))) (zrange i0 (Z.to_nat (i1 - i0))).
+Proof. exact EndToEnd.create_then_query. Qed.
+Print Assumptions C01_create_then_query_through_engine.
